@@ -1,8 +1,10 @@
 /-
 C10 for BET.  Statements about the generated functions (`Gen.R.BET_*` = modelling/bet.py now).
 Validity range of the property: below the pole, `N p < 1`; parameters strictly inside the bounds
-`n_m, C > 0`, `0 < N` (`N ≤ 1` is not needed); the inverse needs `N ≠ C` (at `N = C` the quadratic
-degenerates and the code divides by zero).
+`n_m, C > 0`, `0 < N` (`N ≤ 1` is not needed).  Since the repair of finding S51-C10a/b the inverse is computed in the
+cancellation-free form of the same root (`Lemmas/Quad.lean` `stable_minus_eq`), which also covers `N = C` (the quadratic
+degenerates to a linear equation there; the earlier form divided by zero and returned the pressure 0 for every loading:
+`Props/C10/Findings.lean`), so `bet_pressure_loading` no longer needs `N ≠ C`.
 -/
 import PgVerif.Tie.Models
 import PgVerif.Lemmas.Quad
@@ -18,8 +20,8 @@ theorem bet_pos (nm C N p : ℝ) (hnm : 0 < nm) (hC : 0 < C) (hN : 0 < N) (hp : 
   have h2 : 0 < 1 - N * p + C * p := by positivity
   positivity
 
-/-- pressure(loading(p)) = p below the pole -/
-theorem bet_pressure_loading (nm C N p : ℝ) (hnm : 0 < nm) (hC : 0 < C) (hN : 0 < N) (hNC : N ≠ C)
+/-- pressure(loading(p)) = p below the pole, for EVERY `C > 0` (`N = C` included) -/
+theorem bet_pressure_loading (nm C N p : ℝ) (hnm : 0 < nm) (hC : 0 < C) (hN : 0 < N)
     (hp : 0 < p) (hpole : N * p < 1) :
     BET_pressure nm C N (BET_loading nm C N p) = p := by
   have hn := bet_pos nm C N p hnm hC hN hp hpole
@@ -27,9 +29,6 @@ theorem bet_pressure_loading (nm C N p : ℝ) (hnm : 0 < nm) (hC : 0 < C) (hN : 
   set n := bet nm C N p with hndef
   have h1 : 0 < 1 - N * p := by linarith
   have h2 : 0 < 1 - N * p + C * p := by positivity
-  have hx : n * N * (N - C) ≠ 0 := by
-    have : N - C ≠ 0 := sub_ne_zero.mpr hNC
-    positivity
   -- the defining relation n (1 - N p)(1 - N p + C p) = nm C p
   have hrel : n * ((1 - N * p) * (1 - N * p + C * p)) = nm * C * p := by
     rw [hndef]; unfold bet
@@ -37,7 +36,19 @@ theorem bet_pressure_loading (nm C N p : ℝ) (hnm : 0 < nm) (hC : 0 < C) (hN : 
     rw [div_mul_cancel₀ _ hd]
   unfold BET_pressure nanToZero
   simp only []
-  apply PgVerif.Quad.root_minus' (n * N * (N - C)) _ n p (1 / (N * (N - C) * p)) hx
+  by_cases hNC : N = C
+  · -- the degenerate case: x = 0, the equation is y q + n = 0 with y = -(n + nm) C < 0
+    have hx0 : n * N * (N - C) = 0 := by rw [hNC]; ring
+    have hy : n * C - 2 * n * N - nm * C < 0 := by
+      rw [hNC]; nlinarith [mul_pos hn hC, mul_pos hnm hC]
+    rw [PgVerif.Quad.stable_minus_linear _ _ _ hx0 hy]
+    rw [div_eq_iff (ne_of_lt hy)]
+    rw [hNC] at hrel
+    nlinarith [hrel]
+  have hx : n * N * (N - C) ≠ 0 := by
+    have : N - C ≠ 0 := sub_ne_zero.mpr hNC
+    positivity
+  apply PgVerif.Quad.stable_minus' (n * N * (N - C)) _ n p (1 / (N * (N - C) * p)) hx
   · have : N - C ≠ 0 := sub_ne_zero.mpr hNC
     field_simp
     nlinarith [hrel]
@@ -64,20 +75,36 @@ theorem bet_pressure_loading (nm C N p : ℝ) (hnm : 0 < nm) (hC : 0 < C) (hN : 
         have := mul_pos hN hp; nlinarith
       linarith
 
+/-- non-vacuity, and the instance that was finding S51-C10b: `N = C` -/
+example : BET_pressure 1 (2 / 5) (2 / 5) (BET_loading 1 (2 / 5) (2 / 5) 1) = 1 :=
+  bet_pressure_loading 1 (2 / 5) (2 / 5) 1 (by norm_num) (by norm_num) (by norm_num) (by norm_num) (by norm_num)
+
 theorem bet_zero (nm C N : ℝ) : BET_loading nm C N 0 = 0 := by
   rw [PgVerif.Tie.bet_loading]; simp [bet]
 
-/-- the zero point of the inverse: at loading 0 both the numerator and the denominator of the quadratic
-formula vanish (IEEE: 0/0 = NaN, which `nan_to_num` maps to 0 — the value the property asks for) -/
+/-- the zero point of the inverse: at loading 0 the branch `y = -n_m C < 0` is taken and the quotient is a genuine
+`(2 · 0) / (2 n_m C)` with a non-zero denominator (no `0/0`, no NaN, no reliance on `x / 0 = 0`; the textbook form was `0/0` here
+and relied on `nan_to_num`) -/
 theorem bet_pressure_zero_point (nm C N : ℝ) (hnm : 0 < nm) (hC : 0 < C) :
     let x := (0 : ℝ) * N * (N - C)
     let y := (0 : ℝ) * C - 2 * 0 * N - nm * C
-    (-y - Real.sqrt (y ^ 2 - 4 * x * 0) = 0) ∧ 2 * x = 0 := by
+    y < 0 ∧ Real.sqrt (y ^ 2 - 4 * x * 0) - y ≠ 0 ∧ BET_pressure nm C N 0 = 0 := by
   simp only []
-  constructor
-  · have : (0 * C - 2 * 0 * N - nm * C) ^ 2 - 4 * (0 * N * (N - C)) * 0 = (nm * C) ^ 2 := by ring
-    rw [this, Real.sqrt_sq (by positivity)]; ring
-  · ring
+  have hy : (0 : ℝ) * C - 2 * 0 * N - nm * C < 0 := by nlinarith [mul_pos hnm hC]
+  have hs := Real.sqrt_nonneg (((0 : ℝ) * C - 2 * 0 * N - nm * C) ^ 2 - 4 * (0 * N * (N - C)) * 0)
+  refine ⟨hy, by linarith, ?_⟩
+  unfold BET_pressure nanToZero
+  simp only []
+  rw [if_pos hy, mul_zero, zero_div]
+
+/-- pressure(loading(p)) = p on the whole validity range, zero point included -/
+theorem bet_pressure_loading_nonneg (nm C N p : ℝ) (hnm : 0 < nm) (hC : 0 < C) (hN : 0 < N)
+    (hp : 0 ≤ p) (hpole : N * p < 1) :
+    BET_pressure nm C N (BET_loading nm C N p) = p := by
+  rcases hp.eq_or_lt with h0 | hpos
+  · rw [← h0, bet_zero]
+    exact (bet_pressure_zero_point nm C N hnm hC).2.2
+  · exact bet_pressure_loading nm C N p hnm hC hN hpos hpole
 
 theorem bet_strictMonoOn (nm C N : ℝ) (hnm : 0 < nm) (hC : 0 < C) (hN : 0 < N) :
     StrictMonoOn (BET_loading nm C N) {p | 0 ≤ p ∧ N * p < 1} := by
